@@ -1464,8 +1464,7 @@ def run(ctx) -> None:
         run_table(ctx, os.path.join(ctx.scratch, "s0"), [[2, 2], [3]], "session:s0", session=True,
                   reduced=(meta_plane if ctx.tier == "quick" else False))
         if ctx.tier == "thorough":
-            run_table(ctx, os.path.join(ctx.scratch, "s1"), [[2, 1], [2]], "session:json", variant="json", session=True)
-            run_table(ctx, os.path.join(ctx.scratch, "s2"), [[2, 1], [2]], "session:nosum", variant="nosum", session=True,
+            run_table(ctx, os.path.join(ctx.scratch, "s1"), [[2, 1], [2]], "session:json", variant="json", session=True,
                       reduced=meta_plane)
     except RuntimeError as e:
         ctx.proof_problems.append("model evaluation failed (same-handle sessions): " + str(e)[:800])
